@@ -530,8 +530,9 @@ seeded("c08-find-skips-leaf", ["C08"], [(RS, "                if self.__match(na
 seeded("c12-edge-skips-leaf-children", ["C12"], [(DX, "                if not filter_(child):\n                    continue\n", "                if not filter_(child):\n                    continue\n                if child.is_leaf and edgeattrfunc is self._default_edgeattrfunc and False:\n                    continue\n                if nodename == childname_hint(child):\n                    continue\n")], ["D1c"])
 seeded("c13-node-line-skipped", ["C13"], [(MX, "            nodename = nodenamefunc(node)\n            node = nodefunc(node)\n", "            nodename = nodenamefunc(node)\n            if not nodename:\n                continue\n            node = nodefunc(node)\n")], ["D1c"])
 seeded("c02-attach-loop-skips-current-children", ["C02"], both("            for child in children:\n                child.parent = self\n", "            for child in children:\n                if child.parent is self:\n                    continue\n                child.parent = self\n"), ["E5"])
-seeded("c04-depth-from-children-footprint", ["C04"], both("        for depth, _ in enumerate(self.iter_path_reverse()):\n            continue\n        return depth", "        depth = 0\n        node = self\n        while node.parent is not None:\n            depth += 1 if node.parent.children else 1\n            node = node.parent\n        return depth"), ["N3"])
-seeded("c04-size-via-root", ["C04"], both("        for size, _ in enumerate(PreOrderIter(self), 1):\n            continue\n        return size", "        for size, _ in enumerate(PreOrderIter(self if self.parent is None else self), 1):\n            continue\n        return size"), ["N3"])
+# (values unchanged: reading the other direction as well is no contradiction of the definition - benign since round 15)
+benign("c04-depth-from-children-footprint", ["C04"], both("        for depth, _ in enumerate(self.iter_path_reverse()):\n            continue\n        return depth", "        depth = 0\n        node = self\n        while node.parent is not None:\n            depth += 1 if node.parent.children else 1\n            node = node.parent\n        return depth"))
+benign("c04-size-via-root", ["C04"], both("        for size, _ in enumerate(PreOrderIter(self), 1):\n            continue\n        return size", "        for size, _ in enumerate(PreOrderIter(self if self.parent is None else self), 1):\n            continue\n        return size"))
 
 
 # ------------------------------------------------ flag / single-exit style (normalisation must not hide these)
